@@ -382,3 +382,43 @@ fn f11_record_after_aes_extra_is_read() {
     assert_eq!(f.compressed_size(), 35, "compressed size from the ZIP64 record after the AES record");
     assert_eq!(f.size(), 7, "uncompressed size from the ZIP64 record after the AES record");
 }
+
+// F10b (C11): a device fault on the seek that probes for the ZIP64 locator must surface as an
+// error; it was taken for "no ZIP64 record" and the archive opened with the saturated 16-bit count.
+struct SeekFault<R> {
+    r: R,
+    seeks: usize,
+    fail: usize,
+}
+impl<R: Read> Read for SeekFault<R> {
+    fn read(&mut self, b: &mut [u8]) -> io::Result<usize> {
+        self.r.read(b)
+    }
+}
+impl<R: Seek> Seek for SeekFault<R> {
+    fn seek(&mut self, p: SeekFrom) -> io::Result<u64> {
+        self.seeks += 1;
+        if self.seeks == self.fail {
+            return Err(io::Error::new(io::ErrorKind::Other, "injected device fault"));
+        }
+        self.r.seek(p)
+    }
+}
+#[test]
+fn f10b_seek_fault_before_zip64_probe_surfaces() {
+    let n = 65537usize;
+    let mut w = zip::ZipWriter::new(Cursor::new(Vec::new()));
+    let o = zip::write::FileOptions::default().compression_method(zip::CompressionMethod::Stored);
+    for i in 0..n {
+        w.start_file(format!("f{i}"), o).unwrap();
+    }
+    let bytes = w.finish().unwrap().into_inner();
+    assert_eq!(zip::ZipArchive::new(Cursor::new(bytes.clone())).unwrap().len(), n);
+    for k in 1..=8 {
+        let r = SeekFault { r: Cursor::new(bytes.clone()), seeks: 0, fail: k };
+        match zip::ZipArchive::new(r) {
+            Err(_) => {}
+            Ok(a) => assert_eq!(a.len(), n, "seek #{k} failed, yet the archive opened with a different entry count"),
+        }
+    }
+}
